@@ -386,6 +386,14 @@ class Interp:
             return Sub(node=call, cls=None, meth=f.attr, recv=recv, args=[self.ev(a) for a in args[1:]],
                        kwargs={a: self.ev(v) for a, v in kw.items()})
         if any(self.is_stream(a) for a in list(args) + list(kw.values())):
+            if f.attr in ("bwrite", "bread", "skip", "bpad", "pad", "_write", "_build") and args and not self.is_stream(first) and any(self.is_stream(a) for a in args[1:]):
+                # the codec operations take the stream FIRST (that is how every one of them is defined and how this interpreter
+                # reads them): with the stream in a later position the value is used as the file object and the call raises
+                from .report import DefiniteViolation
+                raise DefiniteViolation("codec-call-shape", self.m.path.name, self.func.qualname, call,
+                                        f"`{norm(call)}` passes the stream as argument {1 + next(i for i, a in enumerate(args) if self.is_stream(a))} of {f.attr}(): codec operations take the stream first, "
+                                        "so the value is used as the file object and the call fails at run time (nothing of this record can be written / read)",
+                                        construct=f"{self.func.qualname} stream position in {norm(f)}", props=("C01", "C02", "C06"))
             self.err(call, "call passes the stream to something that is not a recognised codec operation")
         return None
 
@@ -934,6 +942,7 @@ def interpret_unit(prog: Program, u: Unit, strict=False):
         if strict:
             raise
         u.error = str(e)
+        u.error_exc = e
     return u
 
 
